@@ -662,4 +662,16 @@ pub mod debug {
             }
         }
     }
+
+    /// Verification accessors: raw image of the debug control register (DR7).
+    #[cfg(bs_verif)]
+    impl DebugControlRegister {
+        pub fn verif_from_bits(bits: usize) -> Self {
+            Self(bits)
+        }
+
+        pub fn verif_bits(&self) -> usize {
+            self.0
+        }
+    }
 }
